@@ -52,14 +52,6 @@ Section Chain.
       rewrite chain_cons in H. apply andb_prop in H as [H1 _].
       rewrite <- L. simpl rev. rewrite last_last. exact H1.
   Qed.
-  Lemma chain_map {B} (r : B -> B -> bool) (f : A -> B) l :
-    chain r (map f l) = chain (fun a b => r (f a) (f b)) l.
-  Proof.
-    induction l as [|a l IH]; auto. destruct l as [|b l]; auto.
-    change (map f (a :: b :: l)) with (f a :: f b :: map f l).
-    change (map f (b :: l)) with (f b :: map f l) in IH.
-    rewrite (chain_cons r), (chain_cons (fun a b => r (f a) (f b))), IH. reflexivity.
-  Qed.
   Lemma chain_ext (r r' : A -> A -> bool) l : (forall a b, r a b = r' a b) -> chain r l = chain r' l.
   Proof. intros E. induction l as [|a l IH]; auto. destruct l as [|b l]; auto. rewrite !chain_cons, IH, E. reflexivity. Qed.
 
@@ -93,6 +85,15 @@ Section Chain.
   Proof. induction 1; simpl; auto. apply insert_Forall; auto. Qed.
 End Chain.
 
+Lemma chain_map {A B} (r : B -> B -> bool) (f : A -> B) l :
+  chain r (map f l) = chain (fun a b => r (f a) (f b)) l.
+Proof.
+  induction l as [|a l IH]; auto. destruct l as [|b l]; auto.
+  change (map f (a :: b :: l)) with (f a :: f b :: map f l).
+  change (map f (b :: l)) with (f b :: map f l) in IH.
+  rewrite !chain_cons, IH. reflexivity.
+Qed.
+
 (* ------------------------------------------------------------------ chunks *)
 
 Section Chunk.
@@ -115,8 +116,8 @@ Section Chunk.
     Forall (fun r => length r = m) l -> chunk m (length l) (concat l) = l.
   Proof.
     induction 1 as [|r l Hr Hl IH]; simpl; auto.
-    rewrite <- Hr at 1. rewrite firstn_app, Nat.sub_diag, firstn_all. simpl. rewrite app_nil_r.
-    f_equal. rewrite <- Hr at 1. rewrite skipn_app, Nat.sub_diag, skipn_all. simpl. exact IH.
+    rewrite firstn_app, skipn_app, (firstn_all2 r), (skipn_all2 r) by lia.
+    replace (m - length r)%nat with 0%nat by lia. simpl. rewrite app_nil_r. f_equal. exact IH.
   Qed.
   Lemma concat_length_const m (l : list (list A)) :
     Forall (fun r => length r = m) l -> length (concat l) = (length l * m)%nat.
@@ -127,7 +128,7 @@ Section Chunk.
   Lemma forallb_rev (p : A -> bool) l : forallb p (rev l) = forallb p l.
   Proof. induction l; simpl; auto. rewrite forallb_app. simpl. rewrite IHl, andb_true_r, andb_comm. reflexivity. Qed.
   Lemma forallb_firstn (p : A -> bool) n l : forallb p l = true -> forallb p (firstn n l) = true.
-  Proof. revert l; induction n; intros [|x l]; simpl; auto. intros H. apply andb_prop in H as [H1 H2]. rewrite H1; auto. Qed.
+  Proof. revert l; induction n; intros [|x l]; simpl; auto. intros H. apply andb_prop in H as [H1 H2]. rewrite H1; simpl; auto. Qed.
   Lemma forallb_skipn (p : A -> bool) n l : forallb p l = true -> forallb p (skipn n l) = true.
   Proof. revert l; induction n; intros [|x l]; simpl; auto. intros H. apply andb_prop in H as [H1 H2]. auto. Qed.
   Lemma forallb_chunk (p : A -> bool) m n d : forallb p d = true -> forallb (forallb p) (chunk m n d) = true.
@@ -136,12 +137,11 @@ Section Chunk.
     rewrite forallb_firstn; auto. simpl. apply IHn, forallb_skipn, H.
   Qed.
   Lemma forallb_Forall_len (l : list (list A)) m : Forall (fun r => length r = m) (rev l) <-> Forall (fun r => length r = m) l.
-  Proof. rewrite !Forall_forall. split; intros H x I; apply H; [apply in_rev in I|apply in_rev]; auto. rewrite rev_involutive; auto. Qed.
+  Proof. rewrite !Forall_forall. split; intros H x I; apply H; apply in_rev; try exact I. rewrite rev_involutive; exact I. Qed.
   Lemma forallb_insert (p : A -> bool) le x l : p x = true -> forallb p l = true -> forallb p (insert le x l) = true.
   Proof.
     intros Hx. induction l; simpl; intros H. rewrite Hx; auto.
     apply andb_prop in H as [H1 H2]. destruct (le x a); simpl; rewrite ?Hx, ?H1; simpl; auto.
-    rewrite H2. auto.
   Qed.
   Lemma forallb_isort (p : A -> bool) le l : forallb p l = true -> forallb p (isort le l) = true.
   Proof. induction l; simpl; auto. intros H. apply andb_prop in H as [H1 H2]. apply forallb_insert; auto. Qed.
@@ -226,10 +226,9 @@ Lemma chain_transfer (r r' : value -> value -> bool) l l' :
   adj_rel (fun x y x' y' => r x y = true -> r' x' y' = true) l l' -> chain r l = true -> chain r' l' = true.
 Proof.
   revert l'. induction l as [|x l IH]; intros [|x' l'] H C; simpl in *; auto; try tauto.
-  - destruct l; tauto.
-  - destruct l as [|y l], l' as [|y' l']; auto; try tauto.
-    destruct H as [H1 H2]. apply andb_prop in C as [C1 C2].
-    rewrite (H1 C1). simpl. apply (IH (y' :: l')); auto.
+  destruct l as [|y l], l' as [|y' l']; auto; try tauto.
+  destruct H as [H1 H2]. apply andb_prop in C as [C1 C2].
+  rewrite (H1 C1). simpl. apply (IH (y' :: l')); auto.
 Qed.
 (** a map that preserves (resp. reverses) the order of adjacent rows keeps (resp. swaps) the
     sortedness marks: the side condition of maintain_scalar_sortedness / signed_scalar_sortedness
@@ -244,7 +243,7 @@ Lemma adj_rel_weaken (P Q : value -> value -> value -> value -> Prop) l l' :
   (forall a b c d, P a b c d -> Q a b c d) -> adj_rel P l l' -> adj_rel Q l l'.
 Proof.
   intros W. revert l'. induction l as [|x l IH]; intros [|x' l'] H; simpl in *; auto.
-  destruct l as [|y l], l' as [|y' l']; auto. destruct H; split; auto. apply (IH (y' :: l')); auto.
+  destruct l as [|y l], l' as [|y' l']; auto. destruct H; split; auto.
 Qed.
 Lemma monotone_sound v v' f : monotone_rows v v' ->
   flags_okb v (sorted_part f) = true -> flags_okb v' (sorted_part f) = true.
@@ -275,7 +274,7 @@ Proof.
   destruct v'; simpl andb; cbv iota; auto;
     (destruct (negb (f_up taken || f_down taken)); auto;
      assert (O : flags_okb _ (or_sorted cur (reverse_sorted taken)) = true)
-       by (apply or_sorted_sound; auto; apply (antitone_sound _ _ taken A T));
+       by (apply or_sorted_sound; [exact C | exact (antitone_sound _ _ taken A T)]);
      match goal with |- context [if ?c then _ else _] => destruct c end; auto;
      apply take_sorted_sound; auto).
 Qed.
@@ -296,7 +295,7 @@ Proof.
   intros W L E. inversion E; subst; clear E. apply andb_prop in W as [W1 W2]. simpl.
   apply andb_true_intro; split.
   - rewrite L. exact W1.
-  - apply flags_okb_iff. simpl. repeat split; try discriminate. intros _. reflexivity.
+  - apply flags_okb_iff. simpl. repeat split; try discriminate; intros _; reflexivity.
 Qed.
 
 (* ------------------------------------------------------------------ structural helpers *)
@@ -368,9 +367,7 @@ Proof.
   - apply vdata_map_wf; auto.
     + rewrite S. apply rev_rows_len.
     + apply rev_rows_all.
-  - eapply reverse_sorted_sound; eauto.
-    + apply vrows_reverse; auto.
-    + apply vdata_map_bool, rev_rows_all.
+  - apply (reverse_sorted_sound v); [apply vrows_reverse; auto | apply vdata_map_bool, rev_rows_all | exact W2].
 Qed.
 
 (* ------------------------------------------------------------------ first / last / fix / deshape *)
@@ -384,7 +381,7 @@ Proof.
     + apply vdata_map_wf; auto.
       * rewrite S. intros A d H. rewrite firstn_length. simpl in H. lia.
       * intros A p d H. apply forallb_firstn, H.
-    + eapply flags_cleared_ok; eauto. apply vdata_map_bool. intros A p d H. apply forallb_firstn, H.
+    + apply (flags_cleared_ok v); [|exact W2]. apply vdata_map_bool. intros A p d H. apply forallb_firstn, H.
 Qed.
 Lemma last_wf m r : wf m -> p_last m = Ok r -> wf r.
 Proof.
@@ -395,7 +392,7 @@ Proof.
     + apply vdata_map_wf; auto.
       * rewrite S. intros A d H. rewrite skipn_length. simpl in H. lia.
       * intros A p d H. apply forallb_skipn, H.
-    + eapply flags_cleared_ok; eauto. apply vdata_map_bool. intros A p d H. apply forallb_skipn, H.
+    + apply (flags_cleared_ok v); [|exact W2]. apply vdata_map_bool. intros A p d H. apply forallb_skipn, H.
 Qed.
 Lemma deshape_wf m : wf m -> wf (p_deshape m).
 Proof.
@@ -404,7 +401,7 @@ Proof.
   - apply vdata_map_wf; auto.
     + intros A d H. simpl. lia.
     + intros A p d H; exact H.
-  - eapply flags_cleared_ok; eauto. apply vdata_map_bool. intros A p d H; exact H.
+  - apply (flags_cleared_ok v); [|exact W2]. apply vdata_map_bool. intros A p d H; exact H.
 Qed.
 Lemma fix_wf m : wf m -> wf (p_fix m).
 Proof.
@@ -497,39 +494,42 @@ Qed.
 Lemma lex_cmp_eq' a b : shape_eq a b = true -> a = b.
 Proof. unfold shape_eq. intros H. apply lex_cmp_eq. destruct (lex_cmp a b); auto; discriminate. Qed.
 
+Lemma chunk2' {A} m (x y : list A) : length x = m -> length y = m -> chunk m 2 (x ++ y) = [x; y].
+Proof. intros <- H. rewrite chunk2, firstn_all2 by lia. reflexivity. Qed.
+
+Lemma vappend_rows a b v : shape_of a = shape_of b -> wf_shape a = true -> wf_shape b = true ->
+  vappend (2%nat :: shape_of a) a b = Some v ->
+  vrows v = [a; b] /\ wf_shape v = true /\ (bool_ok a = true -> bool_ok b = true -> bool_ok v = true).
+Proof.
+  intros S Wa Wb E.
+  pose proof (wf_shape_len a Wa) as La. pose proof (wf_shape_len b Wb) as Lb.
+  destruct a as [sa da|sa da|sa da|sa da|sa da], b as [sb db|sb db|sb db|sb db|sb db];
+    simpl in *; try discriminate; subst sb; inversion E; subst; clear E.
+  all: cbn [vrows wf_shape bool_ok data_len shape_of].
+  all: rewrite (chunk2' (shape_prod sa)) by assumption; (split; [reflexivity|]).
+  all: assert (X : Nat.eqb (length (da ++ db)) (shape_prod (2%nat :: sa)) = true)
+    by (apply Nat.eqb_eq; rewrite app_length, La, Lb; simpl; lia); rewrite X; simpl; split; auto.
+  - intros A B. rewrite forallb_app, A, B. reflexivity.
+  - apply andb_prop in Wa as [_ Wa], Wb as [_ Wb]. rewrite forallb_app, Wa, Wb. reflexivity.
+Qed.
+
 Lemma couple_wf a b r : wf a -> wf b -> p_couple_same a b = Ok r -> wf r.
 Proof.
   unfold wf, wfb, p_couple_same. destruct a as [va fa], b as [vb fb]; simpl.
   intros Wa Wb. apply andb_prop in Wa as [Wa1 Wa2], Wb as [Wb1 Wb2].
   destruct (shape_eq (shape_of va) (shape_of vb)) eqn:SE; simpl; try discriminate.
   apply lex_cmp_eq' in SE.
-  pose proof (wf_shape_len va Wa1) as La. pose proof (wf_shape_len vb Wb1) as Lb.
+  destruct (vappend _ va vb) as [v|] eqn:V; try discriminate.
+  destruct (vappend_rows va vb v SE Wa1 Wb1 V) as (R & W & B).
+  intros E; inversion E; subst; clear E. simpl. rewrite W. simpl.
   apply flags_okb_iff in Wa2, Wb2. destruct Wa2 as (Ba & _ & _), Wb2 as (Bb & _ & _).
-  destruct va as [sa da|sa da|sa da|sa da|sa da], vb as [sb db|sb db|sb db|sb db|sb db];
-    simpl in *; try discriminate; subst sb; intros E; inversion E; subst; clear E;
-    cbn [mv_v mv_f wf_shape data_len shape_of shape_prod fold_right];
-    rewrite app_length, La, Lb;
-    (apply andb_true_intro; split;
-     [ try (apply Nat.eqb_eq; lia)
-     | apply flags_okb_iff; cbn [f_bool f_up f_down]; repeat split; intros H;
-       [ try reflexivity
-       | unfold up_ok; cbn [vrows]; rewrite <- La, chunk2, firstn_all2 by lia; cbn [map chain];
-         rewrite andb_true_r; unfold le_b; destruct (value_cmp true _ _); auto
-       | unfold down_ok; cbn [vrows]; rewrite <- La, chunk2, firstn_all2 by lia; cbn [map chain];
-         rewrite andb_true_r; unfold ge_b; destruct (value_cmp true _ _); auto ] ]).
-  - (* bytes: boolean *) apply andb_prop in H as [H1 H2]. simpl. rewrite forallb_app, (Ba H1), (Bb H2). reflexivity.
-  - (* boxes: shapes *) simpl in Wa1, Wb1. apply andb_prop in Wa1 as [_ Wa1], Wb1 as [_ Wb1].
-    rewrite forallb_app, Wa1, Wb1, andb_true_r. apply Nat.eqb_eq; lia.
+  apply flags_okb_iff. simpl. repeat split; intros H.
+  - apply andb_prop in H as [H1 H2]. auto.
+  - unfold up_ok. rewrite R. simpl. unfold le_b. rewrite andb_true_r. exact H.
+  - unfold down_ok. rewrite R. simpl. unfold ge_b. rewrite andb_true_r. exact H.
 Qed.
 
 (* ------------------------------------------------------------------ range *)
-
-Lemma seq_chain_N k n : chain (fun a b => N.leb a b) (map N.of_nat (seq k n)) = true.
-Proof.
-  revert k; induction n; intros k; auto. destruct n; auto.
-  simpl seq in *. simpl map in *. rewrite chain_cons. rewrite (IHn (S k)), andb_true_r.
-  apply N.leb_le. lia.
-Qed.
 
 Lemma chunk1 {A} n (l : list A) : length l = n -> chunk 1 n l = map (fun x => [x]) l.
 Proof.
@@ -556,9 +556,15 @@ Proof.
     rewrite map_map, chain_map.
     assert (G : forall k m, (k + m <= 256)%nat ->
               chain (fun a b : N => le_b (VByte [] [a]) (VByte [] [b])) (map N.of_nat (seq k m)) = true).
-    { intros k m; revert k; induction m; intros k Hk; auto. destruct m; auto.
-      simpl seq in *. simpl map in *. rewrite chain_cons, (IHm (S k)) by lia. rewrite andb_true_r.
-      apply byte_scalar_le; try lia. apply N.leb_le. lia. }
+    { intros k m; revert k; induction m as [|m IHm]; intros k Hk; auto.
+      destruct m as [|m]; auto.
+      change (seq k (S (S m))) with (k :: seq (S k) (S m)).
+      change (map N.of_nat (k :: seq (S k) (S m))) with (N.of_nat k :: map N.of_nat (seq (S k) (S m))).
+      specialize (IHm (S k)).
+      change (seq (S k) (S m)) with (S k :: seq (S (S k)) m) in *.
+      change (map N.of_nat (S k :: seq (S (S k)) m)) with (N.of_nat (S k) :: map N.of_nat (seq (S (S k)) m)) in *.
+      rewrite chain_cons, IHm by lia. rewrite andb_true_r.
+      apply byte_scalar_le; try lia. apply N.leb_le; lia. }
     apply (G 0%nat n). lia.
   - intros E. apply Nat.eqb_eq in E. subst. reflexivity.
 Qed.
@@ -589,7 +595,7 @@ Proof.
     constructor; auto. apply sort_down_wf; auto.
   - destruct args as [|a [|b [|? ?]]]; try discriminate. inversion F as [|? ? Wa F']; subst.
     inversion F' as [|? ? Wb _]; subst.
-    destruct (p_couple_same a b) eqn:X; inversion E; subst. constructor; auto. eapply couple_wf; eauto.
+    destruct (p_couple_same a b) eqn:X; inversion E; subst. constructor; auto. exact (couple_wf a b _ Wa Wb X).
 Qed.
 
 (** the flag algebra, collected *)
